@@ -59,13 +59,20 @@ func c16Rejections(rep *vk.Report, idx int) {
 	ran := false
 	ex := failsafe.NewExecutor[int](pols...).WithContext(ctx)
 	var err error
+	t0 := time.Now()
 	if async {
 		_, err = ex.GetAsync(func() (int, error) { ran = true; return 1, nil }).Get()
 	} else {
 		_, err = ex.Get(func() (int, error) { ran = true; return 1, nil })
 	}
+	elapsed := time.Since(t0)
 	rep.Eval()
 	refused := errors.Is(err, bulkhead.ErrFull) || errors.Is(err, ratelimiter.ErrExceeded)
+	if kind == "bulkhead" && errors.Is(err, bulkhead.ErrFull) && elapsed < wait {
+		// the only permit is held for the whole scenario: a rejection can only come from the max wait time running out
+		rep.Violate(idx, "C16/rejected-before-max-wait", fmt.Sprintf("bulkhead, %s (max wait %v, async=%v): rejected with ErrFull (OnFull fired %d times) after only %v", how, wait, async, events.Load(), elapsed), map[string]any{"policy": kind, "how": how, "async": async})
+		return
+	}
 	want := int64(0)
 	if refused {
 		want = 1
